@@ -168,6 +168,23 @@ func c34(c *Ctx) {
 		for _, ci := range callsIn(us, Callee(pfp, pb+".shutdownRemainingLocked")) {
 			c.ArgIs(ci, 1, "keeps-the-reporting-subchannel", ParamV("sd"))
 		}
+		// the address list is positioned on the selected subchannel's address on every raw-READY path: every report on the
+		// raw-READY arm follows a successful seekTo(sd.addr), unconditionally (a later resolver update finds the selected
+		// subchannel through the list position)
+		if len(starts) == 1 {
+			seeks := callsIn(us, Callee(pfp, "addressList.seekTo"))
+			if c.Expect(len(seeks) == 1, nil, us, "position-set-on-READY", "the address list is not positioned on the READY subchannel") {
+				sk := seeks[0]
+				c.ArgIs(sk, 1, "seeks-the-reporting-subchannel's-address", FieldLoadOn(c.field(pfp, "scData", "addr"), ParamV("sd")))
+				isSk := func(in ssa.Instruction) bool { return in == sk.(ssa.Instruction) }
+				c.MustPass("raw-READY-always-positions-the-address-list", pathQuery{Fn: us, StartBlocks: starts, Barrier: isSk, Target: orInstr(isCallTo(isReport), isCallTo(Callee("balancer", "SubConn.RegisterHealthListener")))}, sk)
+				for _, rp := range callsIn(us, isReport) {
+					if instrDominates(sk, rp) {
+						c.MustFact(rp, "report-only-after-the-position-was-found", Truth(func(v ssa.Value) bool { return v == sk.Value() }, true))
+					}
+				}
+			}
+		}
 		sr := c.fn(pfp, pb+".shutdownRemainingLocked")
 		var sdn ssa.CallInstruction
 		var body *ssa.Function
